@@ -28,4 +28,5 @@ INVARIANT StoreOnce
 INVARIANT NeverOwnBackground
 PROPERTY StoreAfterExplanation
 PROPERTY SeenCountsReturns
+PROPERTY CommitIsLinear
 CHECK_DEADLOCK FALSE
